@@ -340,3 +340,58 @@ def run_psk(run, P):
         ctx = solve(f, Env({'cb': ()}), on_event, None, keys, R, on_branch=on_branch, key_fn=lambda e: (e.ts.get('cb'), e.ts.get('inst'), e.ts.get('called'), tuple(e.nullf(v) for v in sorted(vvars)), tuple((e.intf(a)[0] >= 0, e.intf(a)[1] < 0) for a in sorted(retaps0))))
         run.stats['psk_solver_steps'] += ctx.steps
     run.require(n >= 2 or run.fixture_mode, 'R-PSK-VERDICT: fewer than 2 identity/hint validation call sites found in the TLS back end')
+
+
+def run_event_reset(run, P, units=('coap_gnutls.c',)):
+    """R-ROUTE (stale event): the TLS back end reports what happened during a call in session->dtls_event; the call's epilogue acts on it
+    (raises the event, disconnects the session on ERROR / CLOSED).  Other functions set the field too (the ClientHello stage records a
+    refusal there) and nobody else clears it.  So every function that ACTS on the field -- tests it in a condition -- has assigned the idle
+    value (a negative constant) to it earlier on every path of the same invocation: what it acts on is what happened in this call, not what
+    an earlier, unrelated one left behind (a session whose first handshake was refused at the hello stage would otherwise be torn down at
+    the first record of its next, valid handshake)."""
+    run.rule('R-ROUTE')
+    FIELD = 'dtls_event'
+    n = 0
+    for f in sorted(P.lib_funcs(), key=lambda f: f['name']):
+        if f['unit'] not in units:
+            continue
+        readers = [b['id'] for b in f['blocks'] if (b.get('term') or {}).get('cond') is not None and
+                   any(isinstance(y, dict) and y.get('k') == 'mem' and y.get('f') == FIELD for y in walk(b['term']['cond']))]
+        if not readers:
+            continue
+        name = f['name']
+        n += 1
+        run.instance('R-ROUTE', '%s: acts on %s only after resetting it in the same call' % (name, FIELD))
+
+        def is_reset(t):
+            if t.get('k') == 'asg' and t.get('op') == '=':
+                l = strip(t['l'])
+                K = const_int(t['r'])
+                return isinstance(l, dict) and l.get('k') == 'mem' and l.get('f') == FIELD and K is not None and K < 0
+            return False
+
+        def is_rule_event(ev):
+            return is_reset(ev['e'])
+        keys, R = relevance(f, is_rule_event)
+        keys = set(keys) | set(readers)
+        reported = set()
+
+        def on_event(ev, env, ctx):
+            if is_reset(ev['e']) and not env.ts.get('reset'):
+                e = apply_generic(ev, env, R).copy()
+                e.ts['reset'] = 1
+                return [e]
+            return None
+
+        def on_branch(b, s, env, ctx):
+            if b['id'] in readers:
+                ok = bool(env.ts.get('reset'))
+                run.oblige('R-ROUTE', ok, '%s:event-reset-before-use' % name)
+                if not ok and b['id'] not in reported:
+                    reported.add(b['id'])
+                    run.violation('R-ROUTE', name, b['term'].get('loc'), 'stale-event-acted-on',
+                                  'session->%s is tested on a path of this call that has not assigned the idle value to it before: the function acts on whatever an earlier '
+                                  'call (for instance a ClientHello that was refused) left in the field' % FIELD, ctx.path())
+            return env
+        solve(f, Env(), on_event, None, keys, R, key_fn=lambda e: e.ts.get('reset'), on_branch=on_branch)
+    run.require(n >= (4 if run.cfg == 'base' else 0) or run.fixture_mode, 'R-ROUTE(stale event): fewer than 4 functions that act on dtls_event found')
